@@ -153,3 +153,247 @@ Lemma with_bits_rel : forall p m p', rel1 p m -> good p' -> t_n (p_tree p') = t_
 Proof.
   intros p m p' (G & A & B & C & D) G' E1 E2 E3. unfold rel1, with_bits. cbn. repeat split; try apply G'; congruence.
 Qed.
+
+(* ------------------------------------------------------------------ per operation *)
+Definition sim (rs : regs) (ms : mregs) (o : bop) : Prop :=
+  exists ms', mon_step ms o (snd (step rs o)) = Some ms' /\ R (fst (step rs o)) ms'.
+
+Lemma R_update_same : forall rs ms r p' m, R rs ms -> mget ms r = Some m -> rel1 p' m -> R (reg_set rs r p') ms.
+Proof.
+  intros rs ms r p' m H E Hr r'. unfold reg_set. cbn [reg_get]. destruct (Nat.eqb r r') eqn:Er; [|apply H].
+  apply Nat.eqb_eq in Er. subst r'. rewrite E. exact Hr.
+Qed.
+
+Lemma obs_eqb_refl : forall l, obs_eqb l l = true.
+Proof. intro. unfold obs_eqb. apply listN_eqb_refl. Qed.
+
+Lemma good_bits_lt : forall p m, rel1 p m -> forall i, N.testbit (p_bits p) i = true -> i < m_n m.
+Proof. intros p m ((Hp & _) & An & _) i Hi. rewrite An. now apply pinv_bits_lt. Qed.
+
+Lemma sim_new : forall rs ms r n msg hash, R rs ms -> (n <= 32768 \/ 65535 < n) -> sim rs ms (BNew r n msg hash).
+Proof.
+  intros rs ms r n msg hash H Hn. unfold sim. cbn [step mon_step].
+  destruct ((n <? 1) || (65535 <? n)) eqn:E.
+  - apply orb_true_iff in E.
+    assert (Hb : n < 1 \/ 65535 < n) by (destruct E as [E|E]; apply N.ltb_lt in E; auto).
+    destruct (new_proof_panics msg n hash Hb) as [s Es]. rewrite Es. cbn [fst snd]. rewrite obs_eqb_refl. eauto.
+  - apply orb_false_iff in E. destruct E as [E1 E2]. apply N.ltb_ge in E1. apply N.ltb_ge in E2.
+    destruct (new_proof_pinv msg n hash (conj E1 E2)) as (p & Ep & Hp & Hb & Hn'). rewrite Ep. cbn [fst snd].
+    rewrite obs_eqb_refl. eexists. split; [reflexivity|]. apply R_set; [assumption|].
+    unfold new_proof in Ep. destruct (tree_new n) as [t|]; [|discriminate]. inversion Ep; subst p.
+    unfold rel1, good. cbn [m_n m_msg m_hash m_bits p_msg p_hash p_tree] in *. repeat split; auto; lia.
+Qed.
+
+Lemma sim_noreg1 : forall rs ms r o, R rs ms -> reg_get rs r = None -> mget ms r = None ->
+  (snd (step rs o) = obs_noreg /\ fst (step rs o) = rs) -> mon_step ms o obs_noreg = Some ms -> sim rs ms o.
+Proof. intros rs ms r o H _ _ [A B] C. unfold sim. rewrite A, B, C. eauto. Qed.
+
+Lemma sim_bits : forall rs ms r, R rs ms -> sim rs ms (BBits r).
+Proof.
+  intros rs ms r H. unfold sim. cbn [step mon_step].
+  destruct (R_get rs ms r H) as [(p & m & E1 & E2 & Hr)|(E1 & E2)]; rewrite E1, E2; cbn [fst snd].
+  - unfold signature_bitset. pose proof Hr as (_ & _ & _ & _ & Ab). rewrite Ab.
+    rewrite bits_ok_model by (apply (good_bits_lt p m Hr)). eauto.
+  - rewrite obs_eqb_refl. eauto.
+Qed.
+
+Lemma sim_clone : forall rs ms r to, R rs ms -> sim rs ms (BClone r to).
+Proof.
+  intros rs ms r to H. unfold sim. cbn [step mon_step].
+  destruct (R_get rs ms r H) as [(p & m & E1 & E2 & Hr)|(E1 & E2)]; rewrite E1, E2; cbn [fst snd]; rewrite obs_eqb_refl.
+  - eexists. split; [reflexivity|]. apply R_set; [assumption|]. now rewrite clone_eq.
+  - eauto.
+Qed.
+
+Lemma sim_derive : forall rs ms r to, R rs ms -> sim rs ms (BDerive r to).
+Proof.
+  intros rs ms r to H. unfold sim. cbn [step mon_step].
+  destruct (R_get rs ms r H) as [(p & m & E1 & E2 & Hr)|(E1 & E2)]; rewrite E1, E2; cbn [fst snd]; rewrite obs_eqb_refl.
+  - eexists. split; [reflexivity|]. apply R_set; [assumption|].
+    destruct Hr as ((Hp & Hn) & An & Am & Ah & Ab). destruct (derive_pinv p Hp) as [Hd Hd0].
+    destruct (derive_keys p) as (_ & Dm & Dh & Dn).
+    unfold rel1, good, with_bits. cbn [m_n m_msg m_hash m_bits]. rewrite Dm, Dh, Dn, Hd0. repeat split; auto.
+  - eauto.
+Qed.
+
+Lemma sim_merge_sparse : forall rs ms r hash ents, R rs ms -> sim rs ms (BMergeSparse r hash ents).
+Proof.
+  intros rs ms r hash ents H. unfold sim. cbn [step mon_step].
+  destruct (R_get rs ms r H) as [(p & m & E1 & E2 & Hr)|(E1 & E2)]; rewrite E1, E2; cbn [fst snd];
+    [|rewrite obs_eqb_refl; eauto].
+  pose proof Hr as ((Hp & Hn) & An & Am & Ah & Ab).
+  destruct (merge_sparse_spec p hash ents Hp) as (p' & S1 & S2 & Sm & Sh & Sk & Sn & S5). rewrite S1. cbn [fst snd].
+  assert (Hr' : rel1 p' (with_bits m (p_bits p'))).
+  { apply (with_bits_rel p m p' Hr); auto. split; [assumption|]. now rewrite Sn. }
+  assert (Hlt : forall i, N.testbit (p_bits p') i = true -> i < m_n m).
+  { intros i Hi. rewrite An, <- Sn. now apply pinv_bits_lt. }
+  rewrite Ah. destruct (N.eqb hash (p_hash p)) eqn:Eh; cbn [negb].
+  - apply N.eqb_eq in Eh. destruct Hp as [h Hinv]. pose proof Hinv as (Hwf & _).
+    destruct (exp_entries_spec h (p_tree p) (p_msg p) m Hwf ltac:(lia) An Am ents (m_bits m) true) as [X1 X2].
+    destruct (exp_entries m ents (m_bits m) true) as [bits' av]. cbn [fst snd] in X1, X2. cbn [andb] in X1.
+    assert (Eb : bits' = p_bits p').
+    { apply same_bits_eq. intro i. rewrite X2, S5, Ab. split.
+      - intros [A|A]; [auto|]. right. auto.
+      - intros [A|[_ A]]; auto. }
+    subst bits' av. rewrite Ab. rewrite flags_ok_model by assumption.
+    eexists. split; [reflexivity|]. apply R_set; assumption.
+  - apply N.eqb_neq in Eh.
+    assert (Eb : p_bits p' = p_bits p).
+    { apply same_bits_eq. intro i. rewrite S5. split; [|auto]. intros [A|[A _]]; [exact A|congruence]. }
+    unfold no_flags. rewrite Ab, <- Eb. rewrite flags_ok_model by assumption.
+    eexists. split; [reflexivity|]. eapply R_update_same; eauto.
+    destruct Hr' as (G & A1 & A2 & A3 & _). unfold with_bits in *. cbn [m_n m_msg m_hash] in *.
+    repeat split; try apply G; auto. congruence.
+Qed.
+
+(* ------------------------------------------------------------------ Merge *)
+Lemma merge_facts : forall p o p' f, pinv p -> merge p o = Ok (p', f) ->
+  p_msg p' = p_msg p /\ p_hash p' = p_hash p /\ t_n (p_tree p') = t_n (p_tree p).
+Proof.
+  intros p o p' f [h Hinv] E. unfold merge in E.
+  destruct (negb (matches p o)); [inversion E; subst; auto|].
+  destruct (sparse_indices (p_tree o)) as [ids|]; [|discriminate].
+  destruct (merge_loop_spec (p_msg p) h (p_tree o) ids (p_tree p) true false Hinv) as (t' & av & inc & R1 & _ & _ & R4 & _).
+  rewrite R1 in E. inversion E; subst. unfold set_tree. cbn. auto.
+Qed.
+
+Lemma lenient_ok : forall n bits' bits, (forall i, N.testbit bits' i = true -> i < n) ->
+  (forall i, N.testbit bits i = true -> N.testbit bits' i = true) ->
+  all_lt (bits_list bits') n && is_superset (mask_of (bits_list bits')) bits = true.
+Proof.
+  intros. rewrite mask_of_bits_list. apply andb_true_iff. split.
+  - apply all_lt_spec. intros x Hx. apply H. now apply bits_list_spec.
+  - now apply is_superset_of.
+Qed.
+
+Lemma sim_merge : forall rs ms r o, R rs ms -> sim rs ms (BMerge r o).
+Proof.
+  intros rs ms r o H. unfold sim. cbn [step mon_step].
+  destruct (R_get rs ms r H) as [(p & m & E1 & E2 & Hr)|(E1 & E2)]; rewrite E1, E2;
+    [|cbn [fst snd]; rewrite obs_eqb_refl; eauto].
+  destruct (R_get rs ms o H) as [(q & mq & F1 & F2 & Hq)|(F1 & F2)]; rewrite F1, F2;
+    [|cbn [fst snd]; rewrite obs_eqb_refl; eauto].
+  pose proof Hr as ((Hp & Hn) & An & Am & Ah & Ab). pose proof Hq as ((Hpq & Hnq) & Bn & Bm & Bh & Bb).
+  destruct (merge_total_pinv p q Hp Hpq) as (p' & f & Em & Hp' & Hmono). rewrite Em. cbn [fst snd].
+  destruct (merge_facts p q p' f Hp Em) as (Fm & Fh & Fn).
+  assert (Hr' : rel1 p' (with_bits m (p_bits p'))).
+  { apply (with_bits_rel p m p' Hr); auto. split; [assumption|]. now rewrite Fn. }
+  assert (Hlt : forall i, N.testbit (p_bits p') i = true -> i < m_n m).
+  { intros i Hi. rewrite An, <- Fn. now apply pinv_bits_lt. }
+  rewrite Am, Ah, Bm, Bh. fold (matches p q).
+  destruct (matches p q) eqn:Ema; cbn [negb].
+  2:{ unfold merge in Em. rewrite Ema in Em. cbn [negb] in Em. inversion Em; subst p' f.
+      unfold no_flags. rewrite Ab. rewrite flags_ok_model by assumption.
+      eexists. split; [reflexivity|]. eapply R_update_same; eauto. }
+  rewrite An, Bn. destruct (N.eqb (t_n (p_tree p)) (t_n (p_tree q))) eqn:En; cbn [negb].
+  - apply N.eqb_eq in En. pose proof (pinv_keys_eq p q Hp Hpq En) as Hk.
+    destruct (merge_spec p q Hp Hpq Hk) as (p2' & M1 & _ & _ & _ & _ & _ & M5).
+    rewrite Em in M1. inversion M1; subst p2'. rewrite Ema in *.
+    assert (Eb : N.lor (m_bits m) (m_bits mq) = p_bits p').
+    { apply same_bits_eq. intro i. rewrite M5, N.lor_spec, orb_true_iff, Ab, Bb. tauto. }
+    rewrite Eb, Ab, Bb. unfold looks_superset. fold (looks_superset_b (p_bits q) (p_bits p)).
+    rewrite <- An. rewrite flags_ok_model by assumption.
+    eexists. split; [reflexivity|]. apply R_set; assumption.
+  - destruct f as [av inc sup]. unfold obs_flags. cbn [f_all_valid f_increased f_superset].
+    rewrite <- An. rewrite Ab.
+    cbv iota. rewrite (lenient_ok (m_n m) (p_bits p') (p_bits p) Hlt Hmono).
+    rewrite mask_of_bits_list. eexists. split; [reflexivity|]. apply R_set; assumption.
+Qed.
+
+(* ------------------------------------------------------------------ MergeSparse(AsSparse) *)
+Lemma max_sig : forall h q id, inv (p_msg q) h (p_tree q) -> is_max h (t_sigs (p_tree q)) id ->
+  exists ks, id < 2 * p2 h - 1 /\ nthN (t_keys (p_tree q)) id = Some (Some ks) /\ ks <> [] /\
+             snd (sparse_entry_of q id) = SAgg (p_msg q) ks.
+Proof.
+  intros h q id Hinv (d & off & Hd & Ho & -> & Hm). pose proof Hinv as (Hwf & Hgen & _).
+  apply andb_true_iff in Hm. destruct Hm as [M1 _]. apply set_at_is_set in M1. destruct M1 as [sg Hs].
+  destruct (Hgen _ _ Hs) as (ks & Hk & Hne & ->). exists ks.
+  assert (Hlt : nidx h d off < 2 * p2 h - 1) by (apply lstart_bound; assumption).
+  split; [assumption|]. split; [assumption|]. split; [assumption|].
+  unfold sparse_entry_of. cbn [snd].
+  destruct (tree_get_spec h (p_tree q) (nidx h d off) Hwf) as [(_ & k & s & A & B & C)|(Hge & _)]; [|lia].
+  rewrite C. rewrite Hs in B. inversion B; subst s. reflexivity.
+Qed.
+
+Lemma sim_merge_from : forall rs ms r o, R rs ms -> sim rs ms (BMergeFrom r o).
+Proof.
+  intros rs ms r o H. unfold sim. cbn [step mon_step].
+  destruct (R_get rs ms r H) as [(p & m & E1 & E2 & Hr)|(E1 & E2)]; rewrite E1, E2;
+    [|cbn [fst snd]; rewrite obs_eqb_refl; eauto].
+  destruct (R_get rs ms o H) as [(q & mq & F1 & F2 & Hq)|(F1 & F2)]; rewrite F1, F2;
+    [|cbn [fst snd]; rewrite obs_eqb_refl; eauto].
+  pose proof Hr as ((Hp & Hn) & An & Am & Ah & Ab). pose proof Hq as ((Hpq & Hnq) & Bn & Bm & Bh & Bb).
+  destruct Hpq as [hq Hinvq]. pose proof Hinvq as (Hwfq & _).
+  destruct (sparse_indices_spec (p_msg q) hq (p_tree q) Hinvq) as (ids & Es & _ & Hin).
+  rewrite (as_sparse_eq q ids Es).
+  set (ents := map (sparse_entry_of q) ids).
+  destruct (merge_sparse_spec p (p_hash q) ents Hp) as (p' & S1 & S2 & Sm & Sh & Sk & Sn & S5). rewrite S1. cbn [fst snd].
+  assert (Hr' : rel1 p' (with_bits m (p_bits p'))).
+  { apply (with_bits_rel p m p' Hr); auto. split; [assumption|]. now rewrite Sn. }
+  assert (Hlt : forall i, N.testbit (p_bits p') i = true -> i < m_n m).
+  { intros i Hi. rewrite An, <- Sn. now apply pinv_bits_lt. }
+  assert (Hmono : forall i, N.testbit (p_bits p) i = true -> N.testbit (p_bits p') i = true).
+  { intros i Hi. apply S5. auto. }
+  rewrite Ah, Bh. destruct (N.eqb (p_hash q) (p_hash p)) eqn:Eh; cbn [negb].
+  2:{ apply N.eqb_neq in Eh.
+      assert (Eb : p_bits p' = p_bits p).
+      { apply same_bits_eq. intro i. rewrite S5. split; [|auto]. intros [A|[A _]]; [exact A|congruence]. }
+      unfold no_flags. rewrite Ab, <- Eb. rewrite flags_ok_model by assumption.
+      eexists. split; [reflexivity|]. eapply R_update_same; eauto.
+      destruct Hr' as (G & A1 & A2 & A3 & _). unfold with_bits in *. cbn [m_n m_msg m_hash] in *.
+      repeat split; try apply G; auto. congruence. }
+  apply N.eqb_eq in Eh.
+  rewrite An, Bn. destruct (N.eqb (t_n (p_tree p)) (t_n (p_tree q))) eqn:En; cbn [negb].
+  2:{ unfold obs_flags. rewrite <- An, Ab.
+      cbv iota. rewrite (lenient_ok (m_n m) (p_bits p') (p_bits p) Hlt Hmono).
+      rewrite mask_of_bits_list. eexists. split; [reflexivity|]. apply R_set; assumption. }
+  apply N.eqb_eq in En.
+  pose proof (pinv_keys_eq p q Hp (ex_intro _ hq Hinvq) En) as Hk.
+  rewrite Am, Bm. destruct (N.eqb (p_msg p) (p_msg q)) eqn:Emsg.
+  - (* same message: every entry verifies, the bits are the union *)
+    apply N.eqb_eq in Emsg.
+    assert (Hok : forall id, In id ids -> entry_ok (t_keys (p_tree p)) (p_msg p) (sparse_entry_of q id) = true /\
+                    entry_leaves (t_keys (p_tree p)) (sparse_entry_of q id) = leaves_of (t_keys (p_tree p)) id).
+    { intros id Hid. rewrite Hk, Emsg. apply (sparse_entry_ok hq q id Hinvq ltac:(lia)). now apply Hin. }
+    assert (Hall : forallb (entry_ok (t_keys (p_tree p)) (p_msg p)) ents = true).
+    { apply forallb_forall. intros e He. apply in_map_iff in He. destruct He as (id & <- & Hid). apply Hok. exact Hid. }
+    assert (Eb : N.lor (m_bits m) (m_bits mq) = p_bits p').
+    { apply same_bits_eq. intro i. rewrite S5, N.lor_spec, orb_true_iff, Ab, Bb.
+      unfold p_bits at 3. rewrite (sparse_cover (p_msg q) hq (p_tree q) ids Hinvq Es i). split.
+      - intros [A|(id & Hid & Hl)]; [auto|]. right. split; [assumption|]. exists (sparse_entry_of q id).
+        destruct (Hok id Hid) as [X Y]. split; [apply in_map; assumption|]. split; [assumption|]. rewrite Y, Hk. exact Hl.
+      - intros [A|(_ & e & He & Ho & Hl)]; [auto|]. right. apply in_map_iff in He. destruct He as (id & <- & Hid).
+        exists id. split; [assumption|]. destruct (Hok id Hid) as [X Y]. rewrite Y, Hk in Hl. exact Hl. }
+    rewrite Hall, Eb, Ab. rewrite <- An. rewrite flags_ok_model by assumption.
+    eexists. split; [reflexivity|]. apply R_set; assumption.
+  - (* another message: every entry fails *)
+    apply N.eqb_neq in Emsg.
+    assert (Hbad : forall id, In id ids -> entry_ok (t_keys (p_tree p)) (p_msg p) (sparse_entry_of q id) = false).
+    { intros id Hid. destruct (max_sig hq q id Hinvq (proj1 (Hin id) Hid)) as (ks & _ & _ & _ & Hs).
+      unfold entry_ok. destruct (fst (sparse_entry_of q id)) as [|x [|y [|z l]]]; try reflexivity.
+      rewrite Hs. unfold verify. destruct (key_at (t_keys (p_tree p)) (x * 256 + y)) as [[|k0 kk]|];
+        rewrite ?andb_false_r; try reflexivity.
+      replace (p_msg q =? p_msg p) with false by (symmetry; apply N.eqb_neq; congruence). apply andb_false_r. }
+    assert (Eb : p_bits p' = p_bits p).
+    { apply same_bits_eq. intro i. rewrite S5. split; [|auto].
+      intros [A|(_ & e & He & Ho & _)]; [exact A|]. apply in_map_iff in He. destruct He as (id & <- & Hid).
+      rewrite (Hbad id Hid) in Ho. discriminate. }
+    assert (Hav : forallb (entry_ok (t_keys (p_tree p)) (p_msg p)) ents = N.eqb (m_bits mq) 0).
+    { rewrite Bb. destruct ids as [|id0 ids'] eqn:Eids.
+      - cbn. symmetry. apply N.eqb_eq. apply N.bits_inj_0. intro i.
+        destruct (N.testbit (p_bits q) i) eqn:T; [|reflexivity].
+        unfold p_bits in T. apply (sparse_cover (p_msg q) hq (p_tree q) [] Hinvq Es i) in T.
+        destruct T as (x & [] & _).
+      - unfold ents. cbn [map forallb]. rewrite (Hbad id0 (or_introl eq_refl)). cbn [andb]. symmetry. apply N.eqb_neq.
+        intro Z. destruct (max_sig hq q id0 Hinvq (proj1 (Hin id0) (or_introl eq_refl))) as (ks & _ & Hks & Hne & _).
+        destruct ks as [|k0 kk]; [congruence|].
+        assert (T : N.testbit (p_bits q) k0 = true).
+        { unfold p_bits. apply (sparse_cover (p_msg q) hq (p_tree q) (id0 :: ids') Hinvq Es k0).
+          exists id0. split; [left; reflexivity|]. unfold leaves_of. rewrite Hks. left. reflexivity. }
+        rewrite Z, N.bits_0 in T. discriminate. }
+    rewrite Hav, Eb. rewrite N.ltb_irrefl. rewrite Ab, <- Eb. rewrite <- An.
+    rewrite flags_ok_model by assumption.
+    eexists. split; [reflexivity|]. eapply R_update_same; eauto.
+    destruct Hr' as (G & A1 & A2 & A3 & _). unfold with_bits in *. cbn [m_n m_msg m_hash] in *.
+    repeat split; try apply G; auto. congruence.
+Qed.
